@@ -59,6 +59,14 @@ class C04(Prop):
         for _ in range(160 if tier == "quick" else 2500):
             layout = F.gen_fasta(rng, exotic=True)
             yield from self.cases_for(rng, layout, "wf")
+        # record names outside ASCII (UTF-8 in the file): the index, the derived assembly and the cache
+        # files must carry the names as the file spells them (oracle only: the model is ASCII)
+        for k in range(12 if tier == "quick" else 100):
+            layout = F.gen_fasta(rng, nrec=rng.choice([2, 3]), maxlen=20)
+            for r, nm in zip(layout["records"], rng.sample(["s\u00e9q_2", "\u03b1_sat", "\u67d3\u8272\u4f533", "plain_1", "\u00fc"], len(layout["records"]))):
+                r["name"] = nm.encode("utf-8").decode("latin-1")      # one char per byte, as rendered
+            yield {"gen": "utf8-names", "kind": "index", "layout": layout, "data": F.render(layout), "buf": rng.choice([1, 7, 250000]),
+                   "utf8": True}
         for k in range(88 if tier == "quick" else 880):
             kind, data = F.malformed(rng, F.MALFORMED_KINDS[k % len(F.MALFORMED_KINDS)])
             yield {"gen": "malformed/" + kind, "kind": "index", "layout": None, "data": data,
@@ -106,6 +114,8 @@ class C04(Prop):
         return {"index": ix, "stream": F.stream_impl(fi, ix["asm"], 60)}
 
     def term(self, case, obs):
+        if case.get("utf8"):
+            return []
         if case["kind"] == "index":
             def t(names):
                 if "err" in obs:
@@ -146,6 +156,11 @@ class C04(Prop):
         if "err" in ix:
             return f"well-formed FASTA rejected with {ix['err']}"
         want_idx, want_asm = F.expect_index(layout)
+        if case.get("utf8"):
+            u = lambda x: x.encode("latin-1").decode("utf-8")
+            want_idx = [[u(q[0])] + q[1:] for q in want_idx]
+            want_asm = [{"name": u(sc["name"]), "rows": [([r[0], u(r[1])] + r[2:]) if r[0] == "F" else r for r in sc["rows"]]}
+                        for sc in want_asm]
         if ix["idx"] != want_idx:
             return f"index {ix['idx']} != faidx quintuples {want_idx}"
         if ix["asm"] != want_asm:
